@@ -50,18 +50,41 @@ type logStats struct {
 
 // checkLog applies the log law: the queue never offers an index above
 // height+1 (offers at or below the height are legitimate and only counted),
-// and the successful additions are exactly 1, 2, 3, ...
-func checkLog(recs []addRec) (sig, detail string, st logStats) {
+// and the successful additions are exactly 1, 2, 3, ... It returns the
+// position of the offending record.
+func checkLog(recs []addRec, cache int) (sig, detail string, at int, st logStats) {
 	next := uint32(1)
+	lastQueue := -1
 	for i, r := range recs {
 		if !r.Direct {
 			st.queueCalls++
 			if r.Idx > r.Height+1 {
-				return "additem-above-height+1", fmt.Sprintf("call #%d: AddItem(%d) while the height was %d", i, r.Idx, r.Height), st
+				// Known shape: the queue reads the ledger height, another adder
+				// (consensus) moves the ledger past the slot's index, a producer
+				// refills that ring slot with index+cache, the queue then takes the
+				// slot's content for the block it computed the slot for.
+				hq, directs := uint32(0), 0
+				if lastQueue >= 0 {
+					hq = recs[lastQueue].Height
+					if recs[lastQueue].OK {
+						hq++
+					}
+				}
+				for _, d := range recs[lastQueue+1 : i] {
+					if d.Direct && d.OK {
+						directs++
+					}
+				}
+				hr := int64(r.Idx) - 1 - int64(cache) // the height the queue must have read
+				if directs > 0 && hr >= int64(hq) && hr < int64(r.Height) {
+					return "future-block-offered:ring-slot-refilled-after-direct-add-moved-the-height", fmt.Sprintf("call #%d: AddItem(%d) while the height was %d: the queue read height %d, %d direct addition(s) followed, slot %d (cache %d) was refilled with block %d", i, r.Idx, r.Height, hr, directs, int(r.Idx)%cache, cache, r.Idx), i, st
+				}
+				return "additem-above-height+1", fmt.Sprintf("call #%d: AddItem(%d) while the height was %d (cache %d)", i, r.Idx, r.Height, cache), i, st
 			}
 			if r.Idx <= r.Height {
 				st.atOrBelow++
 			}
+			lastQueue = i
 		}
 		if r.OK {
 			if r.Idx != next {
@@ -69,7 +92,7 @@ func checkLog(recs []addRec) (sig, detail string, st logStats) {
 				if r.Idx < next {
 					kind = "repeat"
 				}
-				return "successful-adds-not-sequential:" + kind, fmt.Sprintf("call #%d: block %d added successfully, expected %d", i, r.Idx, next), st
+				return "successful-adds-not-sequential:" + kind, fmt.Sprintf("call #%d: block %d added successfully, expected %d", i, r.Idx, next), i, st
 			}
 			next++
 			if r.Direct {
@@ -79,7 +102,15 @@ func checkLog(recs []addRec) (sig, detail string, st logStats) {
 			}
 		}
 	}
-	return "", "", st
+	return "", "", -1, st
+}
+
+// around returns the records near position at (or the log's tail).
+func around(recs []addRec, at int) []addRec {
+	if at < 0 {
+		return tail(recs, 40)
+	}
+	return recs[max(0, at-30):min(len(recs), at+4)]
 }
 
 func tail(recs []addRec, n int) []addRec {
@@ -205,6 +236,7 @@ type queueCase struct {
 type queueResult struct {
 	sig, detail string
 	stalled     bool
+	quiet       bool
 	stallAt     uint32
 	recs        []addRec
 	st          logStats
@@ -213,6 +245,7 @@ type queueResult struct {
 	wraps       int
 	drift       int
 	lastQ       uint32
+	at          int
 }
 
 // driveQueue runs producers and the direct adder against q over led, then the
@@ -228,7 +261,10 @@ func driveQueue[Q bqueue.Queueable](qc queueCase, led ledger[Q], log *addLog, mk
 		defer func() { runDone <- recover() }()
 		q.Run()
 	}()
-	N := uint32(qc.N)
+	// The last window of blocks is kept for the quiet phase at the end; the
+	// concurrent phase works on 1..N.
+	total := uint32(qc.N)
+	N := total - uint32(min(qc.Cache, qc.N/3))
 	var (
 		wg       sync.WaitGroup
 		puts     atomic.Int64
@@ -263,7 +299,7 @@ func driveQueue[Q bqueue.Queueable](qc queueCase, led ledger[Q], log *addLog, mk
 				case x < 14: // the window's last slots and just beyond (ring wrap / far ahead)
 					i = h + uint32(qc.Cache) - 1 + uint32(pr.Intn(4))
 				case x < 16: // anywhere: stale or far ahead
-					i = 1 + uint32(pr.Intn(qc.N))
+					i = 1 + uint32(pr.Intn(int(N)))
 				case x < 18: // the next block
 					i = h + 1
 				default: // stale duplicate
@@ -345,6 +381,36 @@ func driveQueue[Q bqueue.Queueable](qc queueCase, led ledger[Q], log *addLog, mk
 			break
 		}
 	}
+	// Quiet phase: nobody else touches the ledger. The whole next window is put
+	// in shuffled order with duplicates, the next block last; every element is
+	// inside the window when it is put, so after the missing next block has been
+	// offered the queue must drain to the last block without further help.
+	if !res.stalled && panicked.Load() == nil && total > N {
+		qr := rng.New(qc.Stream*64 + 61)
+		var order []uint32
+		for i := N + 2; i <= total; i++ {
+			order = append(order, i)
+			if qr.Intn(4) == 0 {
+				order = append(order, i)
+			}
+		}
+		qr.Shuffle(len(order), func(i, j int) { order[i], order[j] = order[j], order[i] })
+		order = append(order, N+1)
+		func() {
+			defer guard("Put")
+			for _, i := range order {
+				_ = q.Put(mk(i, qr.Intn(3) == 0))
+				puts.Add(1)
+			}
+		}()
+		deadline := time.Now().Add(stepWait)
+		for led.Height() < total && time.Now().Before(deadline) && panicked.Load() == nil {
+			time.Sleep(50 * time.Microsecond)
+		}
+		if h := led.Height(); h < total && panicked.Load() == nil {
+			res.stalled, res.stallAt, res.quiet = true, h, true
+		}
+	}
 	// let the queue goroutine finish the elements it still holds, then read
 	// the bookkeeping of an idle queue
 	if !res.stalled {
@@ -371,10 +437,10 @@ func driveQueue[Q bqueue.Queueable](qc queueCase, led ledger[Q], log *addLog, mk
 	res.puts, res.farAhead = int(puts.Load()), int(far.Load())
 	res.wraps = qc.N / qc.Cache
 	if x := panicked.Load(); x != nil {
-		res.sig, res.detail = "panic", fmt.Sprint(x)
+		res.sig, res.detail, res.at = "panic", fmt.Sprint(x), -1
 		return
 	}
-	res.sig, res.detail, res.st = checkLog(res.recs)
+	res.sig, res.detail, res.at, res.st = checkLog(res.recs, qc.Cache)
 	return
 }
 
@@ -435,6 +501,10 @@ func runRealQueue(t *testing.T, qc queueCase, src *chainSource) (queueResult, er
 	if res.sig == "" && !res.stalled {
 		// the ledger really holds the source's chain
 		for _, i := range []int{1, qc.N / 2, qc.N} {
+			if bc.BlockHeight() != uint32(qc.N) {
+				res.sig, res.detail = "chain-height-differs-from-ledger-log", fmt.Sprintf("height %d, expected %d", bc.BlockHeight(), qc.N)
+				break
+			}
 			if bc.GetHeaderHash(uint32(i)) != blocks[i].Hash() {
 				res.sig, res.detail = "chain-differs-from-offered-blocks", fmt.Sprintf("hash at %d differs", i)
 			}
@@ -517,7 +587,7 @@ func queuePart(t *testing.T, run *ev.Run) {
 					}
 					if stalls == 3 {
 						res.sig = "stall-below-highest-contiguous-block"
-						res.detail = fmt.Sprintf("three fresh attempts: height stays at %d of %d after the next block was re-offered (cache %d)", res.stallAt, j.qc.N, j.qc.Cache)
+						res.detail = fmt.Sprintf("three fresh attempts: height stays at %d of %d after the next block was re-offered (cache %d, quiet phase with the whole window queued: %v)", res.stallAt, j.qc.N, j.qc.Cache, res.quiet)
 					} else {
 						run.Inconclusive("%s: one attempt stalled, a fresh attempt progressed", j.qc.ID)
 						run.Obs("queue_single_stalls", 1)
@@ -533,16 +603,17 @@ func queuePart(t *testing.T, run *ev.Run) {
 				run.Obs("queue_additem_at_or_below_height", int64(res.st.atOrBelow))
 				run.Obs("queue_direct_adds_ok", int64(res.st.directOK))
 				run.Obs("queue_ring_wraps", int64(res.wraps))
-				if res.drift != 0 {
-					run.Obs("queue_idle_len_nonzero_runs", 1)
-					run.ObsMax("queue_idle_len_max", int64(res.drift))
+				if res.drift > j.qc.Cache {
+					// LastQueued reports a negative capacity: the length counter drifted
+					run.Obs("queue_runs_ending_with_len_above_capacity", 1)
+					run.ObsMax("queue_max_len_minus_capacity", int64(res.drift-j.qc.Cache))
 				}
 				if j.qc.Stream%97 == 0 {
 					run.Sample(map[string]any{"case": j.qc, "puts": res.puts, "additem_calls": res.st.queueCalls, "added_by_queue": res.st.queueOK, "added_directly": res.st.directOK, "offers_at_or_below_height": res.st.atOrBelow, "idle_len": res.drift})
 				}
 				if res.sig != "" {
-					run.Violation("queue:"+res.sig+":"+j.qc.Ledger+":"+j.qc.Mode, j.qc.ID, res.detail,
-						map[string]any{"case": j.qc, "attempts": attempts, "log_tail": tail(res.recs, 60), "log_len": len(res.recs)})
+					run.Violation("queue:"+res.sig, j.qc.ID, res.detail,
+						map[string]any{"case": j.qc, "attempts": attempts, "log_around_the_call": around(res.recs, res.at), "log_len": len(res.recs)})
 				}
 			}
 		}()
